@@ -156,3 +156,106 @@ def run(ck):
             wit = w
     ck.ob('C35.bound', 'C35.bound/recv_line', ok, f.loc(),
           'every byte appended to a control line is counted against kMaxLineLength in the same iteration, and exceeding it ends the read', wit)
+
+    # ---- integer division: the divisor is provably non-zero (SIGFPE is a crash a remote manifest could cause) -------------------------
+    from sa.prog import int_type as _it
+    from sa.flow import all_defs as _ad35, origin_chain as _oc35
+    from sa.canon import canon as _canon, norm as _norm
+    from props.common import declref as _dr
+    ndiv = 0
+    seen_div = set()
+    for f in P.fns:
+        for i in f.walk():
+            nd = f.nodes[i]
+            if nd['k'] not in ('BinaryOperator', 'CompoundAssignOperator') or nd.get('op') not in ('/', '%', '/=', '%=') or _it(nd.get('t') or '') is None:
+                continue
+            d = f.kids(i)[1]
+            ds = f.strip(d)
+            if 'cv' in f.nodes[ds] or f.nodes[ds]['k'] == 'IntegerLiteral':
+                if const_value(f, ds) == 0:
+                    ck.ob('C35.div', 'C35.div/%s#%s' % (short(f.q).split('::')[-1], nd.get('l')), False, f.loc(i), 'division by the constant 0')
+                continue
+            if (f.file, nd.get('l'), f.q) in seen_div:
+                continue
+            seen_div.add((f.file, nd.get('l'), f.q))
+            ndiv += 1
+            ck.touch(f)
+            dcan = _norm(_canon(f, d))
+            why = None
+            # (1) a parameter that every caller binds to a non-zero constant
+            pd = _dr(f, d)
+            pidx = next((k for k, p_ in enumerate(f.params) if p_.get('d') == pd), None) if pd is not None else None
+            if pidx is not None:
+                sites = [(g, j) for g in P.fns for j in g.walk() if g.nodes[j].get('callee') == f.q and g.nodes[j]['k'] in ('CallExpr', 'CXXMemberCallExpr')]
+                if sites and all(len(g.call_args(j)) > pidx and (const_value(g, g.call_args(j)[pidx]) or 0) != 0 for g, j in sites):
+                    why = 'parameter bound to a non-zero constant at all %d call sites' % len(sites)
+            # (2) a local whose every definition is a non-zero constant
+            if why is None and pd is not None and pidx is None:
+                defs = _ad35(f, pd)
+                if defs and all(r_ is not None and (const_value(f, r_) or 0) != 0 for _k, r_, _s in defs):
+                    why = 'local assigned only non-zero constants'
+            # (3) a dominating test D != 0 / D > 0 / D >= 1 (same canonical expression)
+            if why is None:
+                def g_nz(fact, f=f, dcan=dcan):
+                    h = holds(f, fact)
+                    if h is None:
+                        return False
+                    a, rel, b = h
+                    for x, y, r in ((a, b, rel), (b, a, {'<': '>', '>': '<', '<=': '>=', '>=': '<=', '==': '==', '!=': '!='}[rel])):
+                        if _norm(_canon(f, x)) == dcan and const_value(f, y) is not None:
+                            c_ = const_value(f, y)
+                            if (r == '!=' and c_ == 0) or (r == '>' and c_ >= 0) or (r == '>=' and c_ >= 1):
+                                return True
+                    return False
+                fails, _ = gate_check(f, [('division', i)], [('divisor != 0', g_nz)])
+                if not fails:
+                    why = 'past a test that the divisor is not zero'
+            ck.ob('C35.div', 'C35.div/%s#%s' % (short(f.q).split('::')[-1], nd.get('l')), why is not None, f.loc(i),
+                  'the divisor of `%s` cannot be zero (%s)' % (f.text(i)[:50], why or 'no non-zero constant binding and no dominating non-zero test found'))
+    ck.floor('C35.div', 'integer divisions by a non-constant divisor', ndiv, 3)
+
+    # ---- no self-deadlock: a function is never called while a (non-recursive) mutex is held that it — or anything it calls —
+    # acquires again; on the single control thread or a session thread that stops the service for everybody -------------------------
+    from sa.lockset import Locksets
+    ls = Locksets(P)
+    direct = {}          # id(fn) -> {lock id: site}
+    rec_locks = set()
+    for f in P.fns:
+        acq = {}
+        for i in f.walk():
+            if f.nodes[i]['k'] == 'DeclStmt':
+                for lid in ls.guards_in(f, i):
+                    acq.setdefault(lid, i)
+                    for j in f.walk(i):
+                        if f.nodes[j]['k'] == 'MemberExpr' and f.nodes[j].get('m') == lid and 'recursive' in (f.nodes[j].get('t') or ''):
+                            rec_locks.add(lid)
+        direct[id(f)] = acq
+    trans = {k: dict(v) for k, v in direct.items()}
+    changed = True
+    rounds = 0
+    while changed and rounds < 50:
+        changed = False
+        rounds += 1
+        for f in P.fns:
+            cur = trans[id(f)]
+            for site, tgt in ls.edges[id(f)]:
+                for lid, where in trans.get(id(tgt), {}).items():
+                    if lid not in cur:
+                        cur[lid] = (site, tgt)
+                        changed = True
+    n_locked_calls = 0
+    dead = []
+    for f in P.fns:
+        for site, tgt in ls.edges[id(f)]:
+            held = ls.held_at(f, site)
+            if not held:
+                continue
+            n_locked_calls += 1
+            again = [lid for lid in held if lid in trans.get(id(tgt), {}) and lid not in rec_locks and not lid.startswith(('local ', 'expr '))]
+            if again:
+                dead.append((f, site, tgt, again[0]))
+    ck.floor('C35.lock', 'calls made while a mutex is held', n_locked_calls, 20)
+    ck.extra['locks'] = {'functions_acquiring_directly': len([1 for v in direct.values() if v]), 'calls_under_lock': n_locked_calls, 'fixpoint_rounds': rounds}
+    ck.ob('C35.lock', 'C35.lock/no-reacquisition', not dead, dead[0][0].loc(dead[0][1]) if dead else '',
+          'no function is called while holding a non-recursive mutex that the callee (transitively) locks again (%d calls under a lock examined)%s'
+          % (n_locked_calls, '' if not dead else ' — %s holds %s and calls %s' % (short(dead[0][0].q), short(dead[0][3]), short(dead[0][2].q))))
